@@ -17,6 +17,7 @@ var checks = map[string]func(*core.Ctx){
 	"C17": props.C17,
 	"C18": props.C18,
 	"C19": props.C19,
+	"C06": props.C06,
 	"C02": props.C02,
 	"C03": props.C03,
 }
